@@ -1,7 +1,7 @@
 (** C18 - Numbered databases are fully isolated from one another.
     Statements only; proofs in Proofs/ServerFacts.v.  Model: Model/Server.v. *)
 From Ferrous Require Import Base.Bytes Generated Model.Resp Model.Types Model.Server
-  Proofs.ServerFacts.
+  Proofs.ServerFacts Proofs.IsolationFacts.
 Open Scope Z_scope.
 
 (** A command processed for database [dbi] - directly (normal_command) - leaves
@@ -31,6 +31,44 @@ Theorem c18_exec_select :
   | (rep, s1) => exec_queue now s1 c (match zlookup c (s_conns s1) with Some cn => c_db cn | None => dbi end) q (rep :: acc)
   end.
 Proof. exact exec_queue_select. Qed.
+
+(** The reading half: what a command answers, and what it leaves in the selected database,
+    depends on the selected database alone.  Two servers that agree on database [dbi] (and on the
+    connection table and the password, which are not databases) but differ arbitrarily in the
+    other fifteen databases, in all trackers, logs and subscriptions, answer every command
+    alike and still agree afterwards - for one command and for any list of them. *)
+Theorem c18_reads_selected_db_only :
+  forall now s1 s2 c dbi parts oracle,
+  0 <= dbi < 16 -> agree dbi s1 s2 -> beq (cmd_name parts) (bs "VERIF") = false ->
+  fst (normal_command now s1 c dbi parts oracle) = fst (normal_command now s2 c dbi parts oracle) /\
+  agree dbi (snd (normal_command now s1 c dbi parts oracle)) (snd (normal_command now s2 c dbi parts oracle)).
+Proof. exact normal_command_local. Qed.
+Theorem c18_reads_selected_db_only_history :
+  forall now c dbi cmds s1 s2,
+  0 <= dbi < 16 -> agree dbi s1 s2 ->
+  forallb (fun p => negb (beq (cmd_name p) (bs "VERIF"))) cmds = true ->
+  fst (run_cmds_in now s1 c dbi cmds) = fst (run_cmds_in now s2 c dbi cmds) /\
+  agree dbi (snd (run_cmds_in now s1 c dbi cmds)) (snd (run_cmds_in now s2 c dbi cmds)).
+Proof. exact run_cmds_local. Qed.
+(** non-vacuity: two servers that agree on database 0 and differ in database 1 *)
+Example c18_agree_example :
+  let s1 := connect (init_server None) 1 in
+  let s2 := snd (normal_command 0 s1 1 1 [FBulk (bs "SET"); FBulk (bs "k"); FBulk (bs "other")] None) in
+  agree 0 s1 s2 /\ get_db s1 1 <> get_db s2 1.
+Proof. vm_compute. repeat split; discriminate. Qed.
+
+(** FLUSHDB answers OK, empties the selected database and no other; FLUSHALL empties all. *)
+Theorem c18_flushdb :
+  forall now s c dbi oracle, 0 <= dbi < 16 -> length (s_dbs s) = 16%nat ->
+  fst (normal_command now s c dbi [FBulk (bs "FLUSHDB")] oracle) = r_ok /\
+  get_db (snd (normal_command now s c dbi [FBulk (bs "FLUSHDB")] oracle)) dbi = empty_db /\
+  forall j, 0 <= j -> j <> dbi -> get_db (snd (normal_command now s c dbi [FBulk (bs "FLUSHDB")] oracle)) j = get_db s j.
+Proof. exact flushdb_normal. Qed.
+Theorem c18_flushall :
+  forall now s c dbi oracle,
+  fst (normal_command now s c dbi [FBulk (bs "FLUSHALL")] oracle) = r_ok /\
+  forall j, get_db (snd (normal_command now s c dbi [FBulk (bs "FLUSHALL")] oracle)) j = empty_db.
+Proof. exact flushall_normal. Qed.
 
 (** SELECT of an index outside 0..15, or of a non-number, is refused and keeps the
     selection; a valid index changes the issuing connection's selection only (like every
